@@ -1257,6 +1257,10 @@ class AsyncBackgroundBatcher(Generic[A_contra, R_co]):
 
 _CROSS_LOOP_POOL = ThreadPoolExecutor(32)
 
+#: ids of the loops currently being run by :func:`ensure_aw` itself
+_BORROWED_LOOPS: Set[int] = set()
+_BORROWED_LOOPS_LOCK = Lock()
+
 
 async def ensure_aw(aw: Awaitable[T], loop: Loop) -> T:
     """
@@ -1306,16 +1310,34 @@ async def ensure_aw(aw: Awaitable[T], loop: Loop) -> T:
     if main_loop is loop:
         return await aw
 
-    if loop.is_running():
-        return await run_aw_threadsafe(aw, loop)
+    with _BORROWED_LOOPS_LOCK:
+        # A loop that is only running because another ensure_aw call
+        # borrowed it (see below) stops as soon as that call's
+        # awaitable is done, so anything handed to it now could be left
+        # behind forever. Only hand the awaitable to a loop that
+        # somebody else keeps running, otherwise queue up to run it.
+        if loop.is_running() and id(loop) not in _BORROWED_LOOPS:
+            coro = aw if aio.iscoroutine(aw) else _aw_to_coro(aw)
+            future = run_coro_ts(coro, loop)
+        else:
+            future = None
+
+    if future is not None:
+        return await aio.wrap_future(future)
 
     if loop.is_closed():
         raise RuntimeError("Target loop is closed!")
 
     def _loop_thread() -> T:
         with _get_loop_lock(loop):
-            aio.set_event_loop(loop)
-            return loop.run_until_complete(aw)
+            with _BORROWED_LOOPS_LOCK:
+                _BORROWED_LOOPS.add(id(loop))
+            try:
+                aio.set_event_loop(loop)
+                return loop.run_until_complete(aw)
+            finally:
+                with _BORROWED_LOOPS_LOCK:
+                    _BORROWED_LOOPS.discard(id(loop))
 
     return await main_loop.run_in_executor(_CROSS_LOOP_POOL, _loop_thread)
 
